@@ -262,7 +262,11 @@ void ThreadPool::cleanup()
     }
 
     TBOX_VERIF_SCHED_POINT("thread_pool.cleanup_before_stop_flag");
-    d_->all_threads_stop_flag = true;
+    {
+        //! 停止标记必须在锁内修改，否则工作线程可能在判断完条件、进入等待之前错过通知
+        std::lock_guard<std::mutex> lg(d_->lock);
+        d_->all_threads_stop_flag = true;
+    }
     d_->cond_var.notify_all();
 
     //! 等待所有的线程退出
